@@ -245,6 +245,10 @@ func multiF1(mask int, vs int) *Multivariant {
 		}
 		for k := 0; k < 2; k++ {
 			r := &MultivariantRendition{Type: MultivariantRenditionType(typ), Name: "n" + strconv.Itoa(k)}
+			if vs%4 == 3 {
+				// what a quoted-string carries verbatim: a backslash, a tab, non-ASCII letters and spaces, separators
+				r.Name = []string{"Fran\u00e7ais \\ commentaire", "tab\there", "a b\u00a0c, d=e;#", "\u65e5\u672c\u8a9e\u3000\u89e3\u8aac"}[(k+i)%4]
+			}
 			switch typ {
 			case "AUDIO":
 				r.GroupID = "aud"
@@ -1256,6 +1260,7 @@ var c15Menu = []string{
 	"#EXT-X-MEDIA:TYPE=AUDIO,GROUP-ID=\"\"", "#EXT-X-MEDIA:TYPE=X,GROUP-ID=\"g\"", "#EXT-X-MEDIA:GROUP-ID=\"g\",NAME=\"n\"", "#EXT-X-KEY:METHOD=AES-128", "#EXT-X-BYTERANGE:1@", "#EXT-X-ENDLIST", "\t ",
 	"#EXT-X-PRELOAD-HINT:TYPE=MAP,URI=\"i.mp4\"", "#EXT-X-PRELOAD-HINT:TYPE=PART,URI=\"p.mp4\"",
 	"#EXTINF:0.4,", // a duration that is not zero but rounds to zero seconds
+	"#EXT-X-SKIP:SKIPPED-SEGMENTS=3",
 }
 
 func c15Run(c *vh.Ctx) {
